@@ -12,6 +12,7 @@ import (
 	ingestserver "github.com/openGemini/openGemini/app/ts-sql/sql"
 	"github.com/openGemini/openGemini/lib/config"
 
+	"verifharness/proc"
 	"verifharness/vf"
 )
 
@@ -78,6 +79,9 @@ func (e *env) liveRoutes() bool {
 	twinDir := filepath.Join(c.Scratch, "twin-"+e.fl.Name)
 	_ = os.MkdirAll(twinDir, 0o755)
 	txt := strings.ReplaceAll(string(b), e.s.Cfg.Dir, twinDir)
+	// NewServer binds the arrow-flight address when that service is enabled: the twin gets
+	// its own loopback address
+	txt = strings.ReplaceAll(txt, e.s.Cfg.IP, proc.IP(19, 100+e.fl.Worker))
 	if e.fl.LogKeeper {
 		if rt, err := os.ReadFile(filepath.Join(e.s.Cfg.Dir, "runtime.yaml")); err == nil {
 			_ = os.WriteFile(filepath.Join(twinDir, "runtime.yaml"), rt, 0o644)
